@@ -505,6 +505,22 @@ def permits_come_back(ctx):
                 relname = c._parent.targets[0].id
     ctx.ob(f, f'release callback bound to {sem}.release with token {tok}', ok,
            'the done-callback must release the semaphore that was acquired, with the token acquire returned')
+    # release(tag, token) mirrors acquire(tag, ...): same tag expression, in the positions the semaphores define, and the tag is
+    # the transfer's id (the sliding window is kept per transfer; counting semaphores ignore both arguments, so a slip here
+    # shows only on the in-memory download window: ValueError swallowed in the done callback, the permit never returns)
+    task_p = f.params[1] if len(f.params) > 1 else 'task'
+    atag = q.argn(acq, 'tag', 0)
+    ctx.ob(f, f'{sem}.acquire({task_p}.transfer_id, ...)', atag is not None and norm(q.resolve_local(f, atag)) == f'{task_p}.transfer_id',
+           f'the window is kept per transfer: the tag must be the id of the transfer the task belongs to, found {norm(atag) if atag is not None else None} '
+           '(a per-task tag makes every task token 0 of its own window: the sliding window degrades to a plain counter and parts are requested arbitrarily far ahead)')
+    for c in rel:
+        if norm(c.args[0].value) != sem:
+            continue
+        rest = [norm(a) if isinstance(a, ast.Name) and a.id == tok else norm(q.resolve_local(f, a)) for a in c.args[1:]]
+        ctx.ob(f, f'release arguments are (tag, token) = ({norm(atag) if atag is not None else "?"}, {tok})',
+               atag is not None and rest == [norm(q.resolve_local(f, atag)), tok],
+               f'release is called with {rest}: SlidingWindowSemaphore.release(tag, acquire_token) takes the tag first; swapped or different arguments are rejected '
+               '(ValueError inside the done callback, swallowed) and the permit is never returned')
     adds = [c for c in own_calls(f.node) if isinstance(c.func, ast.Attribute) and c.func.attr == 'add_done_callback'
             and c.args and isinstance(c.args[0], ast.Name) and c.args[0].id == relname]
     addn = [n for c in adds for n in g.nodes_of(c)]
